@@ -96,7 +96,8 @@ Record tnote := TN {
   tn_key : string;
   tn_meta : option string;      (* Graph.metadata *)
   tn_tree : tree;               (* Graph::collect(key): titles refreshed *)
-  tn_tables : list string       (* oracle: text of the note's tables *)
+  tn_tables : list string       (* oracle: text of the note's tables, as they are written where the note is
+                                   exported (the renamed note: in the directory of its new key) *)
 }.
 Definition tlib := list tnote.
 
